@@ -44,6 +44,10 @@ Has(r, f) == f \in DOMAIN r
 Sc == Rec[sc]
 Sessions == DOMAIN Sc.sessions
 Log(s) == Sc.sessions[s].log
+\* a log source is a socket session of its own, or one task among several that share the
+\* connection of a client-library handle (field cid)
+ClientOfIn(x, s) == IF "cid" \in DOMAIN x.sessions[s] THEN x.sessions[s].cid ELSE s
+ClientOf(s) == ClientOfIn(Sc, s)
 AuthRequired == Has(Sc, "auth_required") /\ Sc.auth_required
 
 KvSet(kvs) == {<<kvs[i][1], kvs[i][2]>> : i \in DOMAIN kvs}
@@ -65,6 +69,11 @@ TreeOfJson(t) == {[p |-> n.p, e |-> [k |-> n.e.k, v |-> n.e.v, n |-> n.e.n]] : n
 ReqOf(j) ==
   IF j.op = "import" THEN [op |-> "import", tree |-> TreeOfJson(j.tree), c |-> j.c]
   ELSE IF j.op = "auth" THEN [op |-> "auth", claims |-> ClaimsOf(j), c |-> j.c]
+  \* fire-and-forget variants of the client library (no answer is awaited)
+  ELSE IF j.op = "unsub_async" THEN [op |-> "unsub", tid |-> j.tid, c |-> j.c]
+  ELSE IF j.op = "unsubls_async"
+    \* client lib.rs:2200-2204 sends `unsubscribe` for it  [D_UNSUBLS_ASYNC]
+    THEN [op |-> IF Flag("D_UNSUBLS_ASYNC") THEN "unsub" ELSE "unsubls", tid |-> j.tid, c |-> j.c]
   ELSE j
 
 IdStr(id) == id[1] \o ":" \o ToString(id[2])
@@ -74,7 +83,7 @@ Exact(id) == \E i \in DOMAIN Sc.exact : Sc.exact[i] = IdStr(id)
 \* events: plain subscriptions do not carry the key on the wire
 EvSame(je, me, kind) ==
   /\ je.t = me.t
-  /\ IF kind = "s" THEN {je.kvs[i][2] : i \in DOMAIN je.kvs} = {kv[2] : kv \in me.kvs}
+  /\ IF kind = "s" THEN Has(je, "nov") \/ {je.kvs[i][2] : i \in DOMAIN je.kvs} = {kv[2] : kv \in me.kvs}
      ELSE KvSet(je.kvs) = me.kvs
 
 \* the batches the core delivers to subscription id in this step against the recorded
@@ -101,7 +110,7 @@ CONSTANT CheckRef     \* TRUE: a step is only taken if the reference layer agree
 InitScenario(i) ==
   /\ sc' = i
   /\ pos' = [s \in DOMAIN Rec[i].sessions |-> 1]
-  /\ ss' = [s \in DOMAIN Rec[i].sessions |-> NoSess]
+  /\ ss' = [c \in {ClientOfIn(Rec[i], s) : s \in DOMAIN Rec[i].sessions} |-> NoSess]
   /\ cons' = [x \in DOMAIN Rec[i].streams |-> 0]
   /\ acq' = <<>> /\ outc' = <<>>
 
@@ -109,7 +118,7 @@ TraceInit ==
   /\ Init /\ used = {}
   /\ sc = 2
   /\ pos = [s \in DOMAIN Rec[2].sessions |-> 1]
-  /\ ss = [s \in DOMAIN Rec[2].sessions |-> NoSess]
+  /\ ss = [c \in {ClientOfIn(Rec[2], s) : s \in DOMAIN Rec[2].sessions} |-> NoSess]
   /\ cons = [x \in DOMAIN Rec[2].streams |-> 0]
   /\ acq = <<>> /\ outc = <<>>
 
@@ -156,36 +165,38 @@ StepSess(s) ==
      /\ sc' = sc
      /\ IF j.op = "open" THEN
           \* the server registered the connection and said Welcome
-          /\ CoreStep([op |-> "connect", c |-> s, proto |-> "UNIX", addr |-> "j:null"])
+          /\ CoreStep([op |-> "connect", c |-> ClientOf(s), proto |-> "UNIX", addr |-> "j:null"])
           /\ out'.rep = Ok
-          /\ ss' = [ss EXCEPT ![s] = [proto |-> 1, auth |-> NoAuth, open |-> TRUE]]
+          /\ ss' = [ss EXCEPT ![ClientOf(s)] = [proto |-> 1, auth |-> NoAuth, open |-> TRUE]]
           /\ UNCHANGED acq
         ELSE IF j.op = "closed" THEN
           \* the connection is gone (closed by either side): session end in the core
-          /\ CoreStep([op |-> "disconnect", c |-> s])
-          /\ ss' = [ss EXCEPT ![s].open = FALSE]
+          /\ CoreStep([op |-> "disconnect", c |-> ClientOf(s)])
+          /\ ss' = [ss EXCEPT ![ClientOf(s)].open = FALSE]
           /\ UNCHANGED acq
         ELSE
-          LET r  == ReqOf(j)
-              a  == SessApply(S, ss[s], s, r, R.nacq + 1, AuthRequired)
+          LET c  == ClientOf(s)
+              r  == ReqOf(j)
+              a  == SessApply(S, ss[c], c, r, R.nacq + 1, AuthRequired)
               o  == [rep |-> a.res.rep, ev |-> a.res.ev, ls |-> a.res.ls, lk |-> a.res.lk]
               isCore == a.kind = "reply" /\ r.op \notin {"proto", "auth", "raw", "transform"}
-                        /\ ~(ss[s].proto = 0 /\ V1Only(r))
-                        /\ ~(AuthRequired /\ ss[s].auth.ok /\ ~Granted(ss[s].auth, r))
-              rs == RefStep(R, [r EXCEPT !.c = s], o)
+                        /\ ~(ss[c].proto = 0 /\ V1Only(r))
+                        /\ ~(AuthRequired /\ ss[c].auth.ok /\ ~Granted(ss[c].auth, r))
+              rs == RefStep(R, [r EXCEPT !.c = c], o)
               Rn == IF isCore THEN Feed(rs.R, o, r) ELSE R
               en == IF isCore THEN rs.exp ELSE NoExp
           IN
-          /\ ss' = [ss EXCEPT ![s] = a.ss]
+          /\ ss' = [ss EXCEPT ![c] = a.ss]
           /\ S' = a.res.s /\ out' = o /\ act' = r /\ R' = Rn /\ exp' = en
           \* the terminal message
           /\ CASE a.kind = "dead"   -> j.rep.t = "none"
                [] a.kind = "silent" -> j.rep.t = "none"
                [] a.kind = "reply-close" -> RepOf(j.rep) = o.rep
                [] a.kind = "reply"  ->
-                    IF r.op = "acquire" /\ o.rep.t = "ok"
-                      THEN TRUE      \* the confirmation comes when the lock is granted: checked at the end
-                      ELSE RepOf(j.rep) = o.rep /\ j.rep.m = KindOf(r, o.rep)
+                    IF (r.op = "acquire" /\ o.rep.t = "ok") \/ j.rep.t = "async"
+                      THEN TRUE      \* the confirmation comes when the lock is granted: checked at the end;
+                                     \* fire-and-forget calls have no answer to compare
+                      ELSE RepOf(j.rep) = o.rep /\ (Has(j.rep, "m") => j.rep.m = KindOf(r, o.rep))
           /\ DeliverOK(S, a.res.s, o) /\ cons' = NewCons(S, a.res.s, o)
           /\ acq' = IF isCore /\ r.op = "acquire" /\ ~HasWildcard(r.key) THEN ((R.nacq + 1) :> <<s, pos[s]>>) @@ acq ELSE acq
           /\ outc' = NewOutc(o)
